@@ -96,12 +96,22 @@ func soakCRDT(secs int) {
 	}
 	last := make([]int32, len(cids)) // 0 never, 1 pinned, 2 unpinned (last ACCEPTED operation)
 	var phase int32                  // 0 logging (recorded), 1 paused, 2 logging (not recorded)
+	// go-ds-crdt over the in-memory map datastore answers every prefix query by scanning the whole
+	// store, which grows with every logged operation: an unbounded soak only measures that. The
+	// number of logged operations is therefore capped; the interleavings of LogPin/LogUnpin, batch
+	// worker, listers and Shutdown are exercised all the same.
+	budget := int64(25000)
+	if secs > 60 {
+		budget = 60000
+	}
+	var logged int64
 	s.spawn("log", writers, func(w int, r *common.Rng) {
 		ph := atomic.LoadInt32(&phase)
-		if ph == 1 {
+		if ph == 1 || atomic.LoadInt64(&logged) > budget {
 			time.Sleep(time.Millisecond)
 			return
 		}
+		atomic.AddInt64(&logged, 1)
 		i := w*per + r.Intn(per)
 		p := api.PinCid(cids[i])
 		p.ReplicationFactorMin, p.ReplicationFactorMax = -1, -1
@@ -116,6 +126,7 @@ func soakCRDT(secs int) {
 		}
 		time.Sleep(time.Duration(100+r.Intn(900)) * time.Microsecond)
 	})
+	sentinelCid := common.CidN(len(cids) + 1)
 	listIDs := func() ([]int, error) {
 		st, err := cc.State(ctx)
 		if err != nil {
@@ -130,6 +141,9 @@ func soakCRDT(secs int) {
 			if p == nil {
 				ids = append(ids, 0)
 				continue
+			}
+			if p.Cid.Equals(sentinelCid) {
+				continue // the drain marker of the quiescent point
 			}
 			ids = append(ids, common.CidIndex(p.Cid, len(cids))+1)
 		}
@@ -146,7 +160,7 @@ func soakCRDT(secs int) {
 			s.tornf("state listing with %d empty and %d repeated entries", e, d)
 		}
 		s.sample("crdtstate", "C18 idlist crdtstate => "+runs(descSorted(ids)), e > 0 || d > 0)
-		time.Sleep(time.Duration(500+r.Intn(1500)) * time.Microsecond)
+		time.Sleep(time.Duration(2000+r.Intn(6000)) * time.Microsecond)
 	})
 
 	// controller: log (recorded) for 55% of the time; pause the writers, let queue and batch
@@ -161,7 +175,7 @@ func soakCRDT(secs int) {
 		time.Sleep(100 * time.Millisecond) // calls in flight return
 		// the queue is FIFO: once a sentinel logged now is visible, everything accepted before it
 		// has been applied and committed
-		sentinel := api.PinCid(common.CidN(len(cids) + 1))
+		sentinel := api.PinCid(sentinelCid)
 		sentinel.ReplicationFactorMin, sentinel.ReplicationFactorMax = -1, -1
 		drained := false
 		deadline := time.Now().Add(40 * time.Second)
